@@ -55,17 +55,3 @@ Definition c07_escaped_string (inv : bytes) : bool :=
   | Some j => esc_inventory j
   | None => false
   end.
-
-(** * the empty logical path (decoded view)
-
-    StateVisitor (src/ocfl/validate/serde.rs:1017-1032) tests a logical path for a leading or
-    trailing '/' and then calls LogicalPath::try_from, which accepts the empty string as the
-    logical root (types.rs:765-788): `"state": {"<digest>": [""]}` passes although a logical
-    path is "one or more path elements", none of them empty (3.5.3.1 E051, E052). *)
-From Rocfl Require Import Model.Validate.
-
-Definition empty_logical_path (j : jv) : bool :=
-  existsb (fun vb => mem_b [] (logical_paths vb)) (vblocks j).
-
-Definition c07_empty_logical_path (inv : bytes) : bool :=
-  match parse_json inv with Some j => empty_logical_path j | None => false end.
